@@ -200,7 +200,7 @@ TREE = ['a', 'b', '.h', '.hd/', '.hd/x', '.hd/.y', 'd/', 'd/a', 'd/.h', 'd/.hd/'
 
 
 def make_tree():
-    root = env.mkscratch('c03-')
+    base, root = env.mknested('c03-')
     for e in TREE:
         p = os.path.join(root, e)
         if e.endswith('/'):
@@ -347,7 +347,7 @@ def run(ctx):
         for c in ('real_tree_results_checked', 'exclusion_checks', 'pathlib_match_checks', 'special_dir_checks'):
             ctx.count(c, 0)
     finally:
-        shutil.rmtree(root, ignore_errors=True)
+        shutil.rmtree(os.path.dirname(os.path.dirname(os.path.dirname(os.path.dirname(root)))), ignore_errors=True)
 
 
 def replay(ctx, w):
@@ -376,5 +376,5 @@ def replay(ctx, w):
         elif 'east' in w:
             exclusion_check(ctx, w['ast'], w['east'], 0, w['glob_mode'])
     finally:
-        shutil.rmtree(root, ignore_errors=True)
+        shutil.rmtree(os.path.dirname(os.path.dirname(os.path.dirname(os.path.dirname(root)))), ignore_errors=True)
     return ctx.violations or None
